@@ -233,11 +233,11 @@ public:
 
     void setup(int cat, bool heavy, int heavy_variant) {
         const uint64_t hard = hard_limit(heavy);
-        if (CB >= 22) { m_nslots = 2; m_iter_budget = 2; }   // walking one 4 MiB chunk costs ~0.1 s under ASan
+        if (CB >= 22) { m_nslots = 2; m_iter_budget = 1; }   // walking one 4 MiB chunk costs ~0.1 s under ASan
         if (heavy) {
             m_far = true;
             m_nslots = 2;
-            m_iter_budget = 2;
+            m_iter_budget = 1;
             m_limit = hard;
             if (is32) {
                 if (heavy_variant % 2 == 1) m_limit = TMAX - C;      // stay below the top chunk
@@ -268,7 +268,7 @@ public:
             if (is32) m_anchors.push_back(1ULL << 31);
             else if ((1ULL << 32) <= m_limit) m_anchors.push_back(1ULL << 32);
         }
-        if (m_far && CB < 22) m_iter_budget = 6;
+        if (m_far && CB < 22) m_iter_budget = 5;
     }
 
     void run(uint64_t nops) {
@@ -398,13 +398,13 @@ void dense_case(uint64_t idx, vh::Rng& rng, bool heavy, int variant) {
     int cat = CAT_LOW;
     if (!heavy) {
         const uint64_t r = rng.below(100);
-        cat = r < 50 ? CAT_LOW : r < 80 ? CAT_MID : CAT_TOP;
+        cat = r < 55 ? CAT_LOW : r < 87 ? CAT_MID : CAT_TOP;
         if (variant >= 0) cat = variant;   // forced universe
     }
     static const char* CN[] = {"low", "mid", "top"};
     DenseHistory<T, CB> h{rng};
     h.setup(cat, heavy, variant);
-    uint64_t nops = heavy ? 14 : cat == CAT_LOW ? 20 + rng.below(280) : 15 + rng.below(90);
+    uint64_t nops = heavy ? 10 : cat == CAT_LOW ? 20 + rng.below(280) : 15 + rng.below(90);
     if (CB >= 22 && nops > 80) nops = 80;
     vh::set_case_desc("IdSetDense<%s,%zu> %s universe=%s nops=%" PRIu64, tname<T>(), CB, heavy ? "heavy" : "", heavy ? (variant % 2 ? "below-top" : "top") : CN[cat], nops);
     h.run(nops);
@@ -1124,7 +1124,7 @@ int main(int argc, char** argv) {
     const std::string mode = vh::arg("mode", "idset");
     auto at_end = [] { vh::count("hook_gc_events", vhk::hs().gc_events.load()); };
     if (mode == "idset") return vh::run_cases(argc, argv, 2200, case_idset);
-    if (mode == "idset_heavy") return vh::run_cases(argc, argv, 8, case_idset_heavy);
+    if (mode == "idset_heavy") return vh::run_cases(argc, argv, 4, case_idset_heavy);
     if (mode == "relmap") return vh::run_cases(argc, argv, 3000, case_relmap);
     if (mode == "stash") {
         const std::string profile = vh::arg("profile", "short");
